@@ -54,6 +54,10 @@ def gen(rng, tier):
             # the chosen target fails (a handler using the session of a
             # client whose transport has just gone gets a KeyError, ...):
             # the failure is not "no target here", nothing else runs
+            # afterwards the same registry serves TWO namespaces at once
+            # (the second one has no handlers of its own): the same event
+            # name arrives on both
+            'ns2': rng.choice(['/chat2', '/z', '/A/b', '/']),
             'raises': rng.choice([None, 'KeyError', 'KeyError',
                                   'AttributeError', 'TypeError',
                                   'LookupError', 'ValueError'])}
@@ -266,6 +270,7 @@ def _run_server(case, bits, other, mode, coroutine, w):
     # the registry grows while the server runs: a function handler of higher
     # precedence than the one that took the event is registered under a
     # DIFFERENT key, and the same event arrives again
+    late_bits = [0]      # what the registrations below add for `ev`
     order = [(1, ns, ev), (2, ns, '*'), (4, '*', ev), (8, '*', '*')]
     cur = expected_target(bits, ev, reserved)
     cur_rank = {('func', 'NS', 'EV'): 0, ('func', 'NS', '*'): 1,
@@ -277,6 +282,7 @@ def _run_server(case, bits, other, mode, coroutine, w):
         b, n2, e2 = cands[case['seed'] % len(cands)]
         srv.on(e2, w.make_handler(('s', 'func', n2, e2), plan, coroutine),
                namespace=n2)
+        late_bits[0] |= b
         if b in (2, 8):
             bits |= b        # a catch-all: also takes the other events below
         n0 = len(w.rec.events)
@@ -291,6 +297,7 @@ def _run_server(case, bits, other, mode, coroutine, w):
         # namespace and event, and the same event arrives again
         srv.on(ev, w.make_handler(('s', 'func', ns, ev), plan,
                                   not coroutine), namespace=ns)
+        late_bits[0] |= 1
         n0 = len(w.rec.events)
         n_rx = len(peer.rx)
         peer.send_pkt(sio.EVENT, ns, 31, [ev] + case['args'])
@@ -332,6 +339,33 @@ def _run_server(case, bits, other, mode, coroutine, w):
     tgt = expected_target(bits, 'disconnect', reserved)
     _check(v, w, n0, 'disconnect (lifecycle: %s)' % end, tgt, ns,
            'disconnect', 's', [sid, reason])
+    ns2 = case.get('ns2')
+    if ns2 and ns2 != ns:
+        # another client, on both namespaces; only the catch-all
+        # namespace's targets exist for the second one
+        w.settle()
+        p2 = w.add_peer('s')
+        p2.open()
+        w.settle()
+        sids = {}
+        for nsx in (ns, ns2):
+            n_rx = len(p2.rx)
+            p2.send_pkt(sio.CONNECT, nsx, None, None)
+            w.settle()
+            for r in p2.rx[n_rx:]:
+                if r['pkt'].type == sio.CONNECT and r['pkt'].nsp == nsx:
+                    sids[nsx] = r['pkt'].data['sid']
+        bits1 = bits | late_bits[0]
+        bits2 = bits1 & (4 | 8 | 32)
+        if len(sids) == 2:
+            for i, (nsx, bx) in enumerate([(ns, bits1), (ns2, bits2),
+                                           (ns, bits1), (ns2, bits2)]):
+                n0 = len(w.rec.events)
+                p2.send_pkt(sio.EVENT, nsx, None, [ev, 'two', i])
+                w.settle()
+                _check(v, w, n0, 'two-namespaces',
+                       expected_target(bx, ev, reserved), nsx, ev, 's',
+                       [sids[nsx], 'two', i])
     return _result(v, w, bits, other, ('server', mode, coroutine))
 
 
@@ -521,4 +555,40 @@ def _run_client(case, bits, other, mode, coroutine, w):
     tgt = expected_target(bits, 'disconnect', reserved)
     _check(v, w, n0, 'disconnect (lifecycle: %s)' % end, tgt, ns,
            'disconnect', 'c', [reason])
+    ns2 = case.get('ns2')
+    if ns2 and ns2 != ns:
+        # a further connection, to both namespaces; only the catch-all
+        # namespace's targets exist for the second one
+        w.settle()
+        w.advance(1010.0)     # (engine.io's lingering write loop, see C08)
+        w.settle()
+        h = w.call(c.connect, 'http://s', transports=['websocket'],
+                   namespaces=[ns, ns2], wait_timeout=2)
+        w.settle()
+        if h.exc is not None or not c.connected:
+            v.add('connect_failed', 'second connection: %r' % (h.exc,))
+            return _result(v, w, bits, other, ('client', mode, coroutine))
+        bits2 = bits & (4 | 8 | 32)
+        for i, (nsx, bx) in enumerate([(ns, bits), (ns2, bits2), (ns, bits),
+                                       (ns2, bits2)]):
+            n0 = len(w.rec.events)
+            ss.send_pkt(sio.EVENT, nsx, None, [ev, 'two', i])
+            w.settle()
+            _check(v, w, n0, 'two-namespaces',
+                   expected_target(bx, ev, reserved), nsx, ev, 'c',
+                   ['two', i])
+            n0 = len(w.rec.events)
+            ss.send_pkt(sio.EVENT, nsx, None, ['nobody-handles-this', i])
+            w.settle()
+            t2 = ('func', 'NS', '*', ['event']) if bx & 2 else \
+                ('func', '*', '*', ['event', 'ns']) if bx & 8 else None
+            if t2 is None:
+                new = [e for e in w.rec.events[n0:]
+                       if e['kind'] == 'h_enter']
+                if new:
+                    v.add('unhandled_event_not_dropped',
+                          [e['label'] for e in new], 'two-namespaces')
+            else:
+                _check(v, w, n0, 'two-namespaces-catchall', t2, nsx,
+                       'nobody-handles-this', 'c', [i])
     return _result(v, w, bits, other, ('client', mode, coroutine))
